@@ -79,14 +79,23 @@ func (fg *FG) run() (err error) {
 	for _, b := range order {
 		fg.block(b, pkg)
 	}
+	for key, n := range fg.stepApplied {
+		if n == 0 {
+			fg.fail("loop step clause %s applies at no back-edge (unknown identifier?)", key)
+		}
+	}
 	return nil
 }
 
 // envAt builds the environment for contract clauses of the function itself.
 func (fg *FG) envAt(st *State, pkg *types.Package, local func(string) (Val, bool)) *Env {
 	env := &Env{fg: fg, vars: map[string]Val{}, st: st, old: fg.entrySt, pkg: pkg, local: local}
-	for n, v := range fg.params {
-		env.vars[n] = v
+	if local == nil {
+		// with a local resolver (loop invariants) the current value of a reassigned parameter shadows
+		// its entry value; the resolver falls back to the parameters itself
+		for n, v := range fg.params {
+			env.vars[n] = v
+		}
 	}
 	return env
 }
@@ -227,7 +236,9 @@ func (fg *FG) block(b *ssa.BasicBlock, pkg *types.Package) {
 			env = fg.envAt(st, pkg, fg.localResolver(b, st))
 			for _, inv := range invs {
 				t := env.tr(inv.E)
+				fg.curGroup = groupOf(inv.Tag)
 				fg.assume(fmt.Sprintf("(=> %s %s)", r, t.T))
+				fg.curGroup = ""
 			}
 			fg.headSt[b.Index] = st.clone()
 		} else {
@@ -324,8 +335,32 @@ func (fg *FG) invStep(p, h *ssa.BasicBlock, st *State, pkg *types.Package) {
 		senv := fg.envAt(st, pkg, fg.localResolverAt(p, h, st))
 		senv.prev = penv
 		for k, sc := range steps {
-			t := senv.tr(sc.E)
-			fg.oblig("inv-step", fmt.Sprintf("step:loop%d#%s@b%d", ord, clauseName(sc, k), p.Index), sc.Tag, cond, t.T, sc.Src, fmt.Sprintf("%s:%d", sc.File, sc.Line))
+			// a step clause may name variables of one arm of the loop body only: at back-edges where they
+			// do not resolve the clause does not apply (it must apply at one back-edge at least)
+			var tv Val
+			applies := true
+			func() {
+				defer func() {
+					if r := recover(); r != nil {
+						if ge, ok := r.(genErr); ok && strings.Contains(ge.msg, "unknown identifier") {
+							applies = false
+							return
+						}
+						panic(r)
+					}
+				}()
+				tv = senv.tr(sc.E)
+			}()
+			key := fmt.Sprintf("%d#%d", ord, k)
+			if fg.stepApplied == nil {
+				fg.stepApplied = map[string]int{}
+			}
+			if !applies {
+				fg.stepApplied[key] += 0
+				continue
+			}
+			fg.stepApplied[key]++
+			fg.oblig("inv-step", fmt.Sprintf("step:loop%d#%s@b%d", ord, clauseName(sc, k), p.Index), sc.Tag, cond, tv.T, sc.Src, fmt.Sprintf("%s:%d", sc.File, sc.Line))
 		}
 	}
 }
@@ -360,6 +395,11 @@ func (fg *FG) loopFrame(fam, old, nh string) {
 	srt := fg.heapSort[fam]
 	if !strings.HasPrefix(srt, "(Array Int ") {
 		return
+	}
+	for _, e := range fg.modset {
+		if e.all && e.loc.Heap == fam {
+			return // the whole family may change: no frame
+		}
 	}
 	var exc []string
 	isElem := strings.HasPrefix(fam, "E_")
@@ -642,6 +682,12 @@ func (fg *FG) localResolverAt(at *ssa.BasicBlock, h *ssa.BasicBlock, st *State) 
 				if phi, ok := in.(*ssa.Phi); ok && phi.Comment == name {
 					return fg.vals[phi], true
 				}
+			}
+		}
+		// free variables of closures denote the captured cell (a pointer), as in the closure's contract
+		for _, fv := range fg.fn.FreeVars {
+			if fv.Name() == name {
+				return fg.vals[fv], true
 			}
 		}
 		// 2. latest definition dominating the header: phis in dominating blocks and debug refs
